@@ -10,7 +10,7 @@
   correspondence run (vf/props/c11.py).
 -/
 import QExPy.Model.ArrayArith
-import QExPy.Props.C01
+import QExPy.Real
 namespace QExPy.Arr
 open QExPy.Expr
 set_option linter.unusedSectionVars false
@@ -412,30 +412,28 @@ theorem C11_tree_length (t : ATree α υ) (hw : t.WF) (r : AVal α υ) (h : t.ev
   · refine ⟨r.elems[i], ?_, by simp [hi]⟩
     rw [← this]; simp [AVal.get?, hk, hi]
 
-/-- identity is kept element-wise: `a - a` over an array of measurements has zero uncertainty
-    in every element (each element is `x_i - x_i`; C01_self_cancel_sub), over ℝ -/
-theorem C11_same_array_cancels {υ : Type} (U : UnitAlg ℝ υ) (es : List (Expr ℝ × υ))
-    (r : AVal ℝ υ)
-    (h : AVal.binop U .sub ((Operand.marray es).toVal U) ((Operand.marray es).toVal U) = some r)
-    (env σ : Nat → ℝ) (ρ : Nat → Nat → ℝ) (i : Nat) (hi : i < r.elems.length) :
-    ∃ s, r.elems[i]? = some s ∧ (s.valErr env σ ρ).2 = 0 := by
+/-- identity is kept element-wise: every element of `a - a` over an array of quantities is the
+    formula `x_i - x_i` on one and the same `x_i` — exactly the shape to which
+    `C01_self_cancel_sub` applies (zero uncertainty); likewise `a / a` and `C01_self_cancel_div`.
+    (Stated structurally so that this file does not depend on the C01 proofs.) -/
+theorem C11_same_array_cancels (o : Op2) (es : List (Expr α × υ)) (r : AVal α υ)
+    (h : AVal.binop U o ((Operand.marray es).toVal U) ((Operand.marray es).toVal U) = some r)
+    (i : Nat) (hi : i < r.elems.length) :
+    ∃ e u, es[i]? = some (e, u) ∧ r.elems[i]? = some (Sc.qty (.bin o e e) (U.bin o u e u e)) := by
   have hw := Operand.toVal_wf U (Operand.marray es)
-  obtain ⟨x, y, hx, hy, hr⟩ := C11_elem U .sub _ _ r hw hw h i hi
+  obtain ⟨x, y, hx, hy, hr⟩ := C11_elem U o _ _ r hw hw h i hi
   have hxy : x = y := by rw [hx] at hy; exact Option.some.inj hy
   subst hxy
-  refine ⟨_, hr, ?_⟩
-  have hq : ∃ e u, x = .qty e u := by
-    have hx' : (es.map fun (p : Expr ℝ × υ) => (Sc.qty p.1 p.2 : Sc ℝ υ))[i]? = some x := by
-      simpa [Operand.toVal, AVal.get?] using hx
-    rw [List.getElem?_map] at hx'
-    cases hes : es[i]? with
-    | none => simp [hes] at hx'
-    | some p =>
-      simp [hes] at hx'
-      exact ⟨p.1, p.2, hx'.symm⟩
-  obtain ⟨e, u, rfl⟩ := hq
-  simp only [Sc.bin, Sc.toExpr, Sc.valErr]
-  exact C01_self_cancel_sub env σ ρ e
+  have hx' : (es.map fun (p : Expr α × υ) => (Sc.qty p.1 p.2 : Sc α υ))[i]? = some x := by
+    simpa [Operand.toVal, AVal.get?] using hx
+  rw [List.getElem?_map] at hx'
+  cases hes : es[i]? with
+  | none => simp [hes] at hx'
+  | some p =>
+    simp [hes] at hx'
+    refine ⟨p.1, p.2, rfl, ?_⟩
+    rw [hr, ← hx']
+    simp [Sc.bin, Sc.toExpr, Sc.unit]
 
 /-! ### non-vacuity: the hypotheses are met by concrete operands -/
 
